@@ -83,6 +83,25 @@ func genCorruptions(r *Rng, nbits int, tier string) []corruption {
 		}
 		cs = append(cs, corruption{"burst", bits})
 	}
+	// odd-weight patterns (3, 5, 7 or 9 flipped bits anywhere in the frame): the generator has the
+	// factor x+1, so none of them can pass (Props/C06Odd: odd_weight_detected, any frame length)
+	for i := 0; i < scale(tier, 60, 2500) && nbits >= 9; i++ {
+		k := 3 + 2*r.Intn(4)
+		seen := map[int]bool{}
+		var bits []int
+		for len(bits) < k {
+			p := r.Intn(nbits)
+			if !seen[p] {
+				seen[p] = true
+				bits = append(bits, p)
+			}
+		}
+		label := "odd"
+		if k == 3 {
+			label = "triple"
+		}
+		cs = append(cs, corruption{label, bits})
+	}
 	return cs
 }
 
@@ -104,7 +123,7 @@ func c06Ops(r *Rng) []*Op {
 
 func init() {
 	checks["C06"] = func(tier string, seed uint64, res *Result) error {
-		res.Rule = "CRC: random byte strings fed in random pieces vs table-driven model and bit-serial reference; every assembled RTU frame ends with the reference CRC; one-byte transition digest over states x 256 bytes (quick: 4096 states, thorough: all 65536); real RTU client (rtuovertcp, rtu): valid replies x every single-bit flip, bit pairs, bursts <= 16, random CRC fields, each followed by a clean exchange (resynchronisation); distinct = (check, op, corruption class, outcome)"
+		res.Rule = "CRC: random byte strings fed in random pieces vs table-driven model and bit-serial reference; every assembled RTU frame ends with the reference CRC; one-byte transition digest over states x 256 bytes (quick: 4096 states, thorough: all 65536); real RTU client (rtuovertcp, rtu): valid replies x every single-bit flip, bit pairs, bursts <= 16, odd-weight patterns of 3..9 bits, random CRC fields, each followed by a clean exchange (resynchronisation); distinct = (check, op, corruption class, outcome)"
 		r := NewRng(seed)
 		// (1) checksum of random strings under random feeding; frames end with the reference CRC
 		var cs []kv
